@@ -194,7 +194,7 @@ func sameRuns(rs []runRes) bool {
 }
 
 func runXdec(casesPath, tracePath string, from, nrand int) {
-	tr := vh.NewTrace(tracePath)
+	tr := newFtrace(tracePath)
 	idx := 0
 	ncalls := 0
 	looped := false
@@ -204,7 +204,7 @@ func runXdec(casesPath, tracePath string, from, nrand int) {
 			return nil
 		}
 		idx++
-		if idx <= from {
+		if idx <= from || !selected(idx) {
 			return nil
 		}
 		var c xcase
@@ -264,7 +264,7 @@ func runXdec(casesPath, tracePath string, from, nrand int) {
 		fmt.Printf("LOOP at case %d\n", idx)
 		os.Exit(exitLoop)
 	}
-	if from == 0 || true {
+	if onlyCase == 0 {
 		runRandX(tr, nrand)
 	}
 	tr.Close()
@@ -272,7 +272,7 @@ func runXdec(casesPath, tracePath string, from, nrand int) {
 }
 
 // runDirected gives one directed string (a pristine frame with an inner length replaced) to the decoder.
-func runDirected(tr *vh.Trace, idx int, c *xcase) bool {
+func runDirected(tr *ftrace, idx int, c *xcase) bool {
 	a := pristine(c.Layout, 1001)
 	at, _ := hex.DecodeString(c.At)
 	patch, _ := hex.DecodeString(c.Patch)
@@ -306,7 +306,7 @@ func runDirected(tr *vh.Trace, idx int, c *xcase) bool {
 }
 
 // runRandX: seeded random strings and random corruptions of valid frames, per codec; one summary event per batch.
-func runRandX(tr *vh.Trace, nrand int) {
+func runRandX(tr *ftrace, nrand int) {
 	rng := rand.New(rand.NewSource(vh.Seed()*7919 + 8))
 	layoutsOf := map[string][]string{"bolt": {"bolt_req", "bolt_resp"}, "boltv2": {"boltv2_req", "boltv2_resp"},
 		"dubbo": {"dubbo_req", "dubbo_resp"}, "dubbothrift": {"thrift_req", "thrift_resp"}, "tars": {"tars_req", "tars_resp"}}
@@ -358,6 +358,7 @@ func runRandX(tr *vh.Trace, nrand int) {
 				stream := append(append([]byte{}, in...), pristine(layoutsOf[codec][0], 9)...)
 				n := len(in)
 				runs := []runRes{}
+				announce("rand " + codec + " " + hex.EncodeToString(in))
 				for _, t := range []string{"tight", "cont", "ones"} {
 					r := decodeOnce(codec, memoryBehind(stream, n, t), t)
 					runs = append(runs, r)
